@@ -8,7 +8,7 @@
    decoders' totality runs.  What the code must do with each of them is decided by
    EncodingTrace from the recorded outcome.  One initial state per schema.          *)
 EXTENDS EncodingSets, Json, SequencesExt
-CONSTANTS Sets, MutMax, ExhMax, RandPer, Fuzz
+CONSTANTS Sets, MutMax, ExhMax, RandPer, Fuzz, MutAll   \* MutAll = FALSE: plain-JSON and XML single-point mutants of the largest full tree only
 VARIABLES si, done
 RECURSIVE NameOf(_, _)
 NameOf(S, i) == IF i > NMenu THEN "" ELSE (IF i \in S THEN "_" \o ToString(i) ELSE "") \o NameOf(S, i + 1)
@@ -35,8 +35,10 @@ MutLines(S) ==
   ELSE LET sn == Schema(S) IN
        SetToSeq(UNION {
           {[kind |-> "mut", enc |-> "rfc", toks |-> m, xtoks |-> << >>] : m \in JMutants(EncJ(TRUE, sn, t))}
-          \cup {[kind |-> "mut", enc |-> "json", toks |-> m, xtoks |-> << >>] : m \in JMutants(EncJ(FALSE, sn, t))}
-          \cup {[kind |-> "mut", enc |-> "xml", toks |-> << >>, xtoks |-> m] : m \in XMutants(EncX(sn, t))}
+          \cup (IF MutAll \/ t = BigTree(S)
+                THEN {[kind |-> "mut", enc |-> "json", toks |-> m, xtoks |-> << >>] : m \in JMutants(EncJ(FALSE, sn, t))}
+                     \cup {[kind |-> "mut", enc |-> "xml", toks |-> << >>, xtoks |-> m] : m \in XMutants(EncX(sn, t))}
+                ELSE {})
           : t \in FullTrees(S)}
           \cup (IF FullTrees(S) = {} THEN {}
                 ELSE {[kind |-> "mut", enc |-> "xml", toks |-> << >>, xtoks |-> m] : m \in XNsMutants(EncX(sn, BigTree(S)))}))
